@@ -19,3 +19,21 @@ Definition idft (X : nat -> C) (n : nat) (j : Z) : C :=
 (* timeshift_spectra: X[k] exp(-2j pi f_k delay) with f_k = k / (n dt) *)
 Definition shift_spectrum (X : nat -> C) (n : nat) (dt delay : R) : nat -> C :=
   fun k => Cmult (cis (- 2 * PI * (INR k / (INR n * dt)) * delay)) (X k).
+
+(* ---- two-dimensional transform (rotate_matrix, C10) ----------------------- *)
+Definition idft2 (X : nat -> nat -> C) (n : nat) (j1 j2 : Z) : C :=
+  Cmult (RtoC (/ INR n * / INR n))
+    (csum (fun k1 => csum (fun k2 =>
+       Cmult (X k1 k2) (Cmult (cis (2 * PI * IZR j1 * INR k1 / INR n)) (cis (2 * PI * IZR j2 * INR k2 / INR n)))) n) n).
+
+(* np.fft.fftfreq(n, d)[k] * n * d : the signed frequency index *)
+Definition fftfreq_idx (n k : nat) : Z :=
+  if (2 * k <? n + 1)%nat then Z.of_nat k else (Z.of_nat k - Z.of_nat n)%Z.
+(* note: for even n numpy puts k = n/2 at -n/2; 2k < n+1 <-> k <= n/2 puts it at +n/2; for an
+   integer number of grid steps both give the same phase (see rotate_phase_index) *)
+
+(* rotate_matrix: freqshift = exp(-2j*pi*(freq_x + freq_y)*phi), freq = fftfreq(n, 2*pi/n),
+   i.e. freq = idx / (2 pi);  phi = m * (2 pi / n) for a rotation by m grid steps *)
+Definition rotate_spectrum (X : nat -> nat -> C) (n : nat) (phi : R) : nat -> nat -> C :=
+  fun k1 k2 => Cmult (cis (- 2 * PI * ((IZR (fftfreq_idx n k1) / (2 * PI)) + (IZR (fftfreq_idx n k2) / (2 * PI))) * phi))
+                     (X k1 k2).
